@@ -230,7 +230,7 @@ class Gen:
     def statement(self, sc):
         r = self.r
         d = self.max_depth
-        k = r.below(24)
+        k = r.below(25)
         if k < 5:
             nm = self.fresh(sc)
             sc.vars[nm] = "num"
@@ -309,6 +309,12 @@ class Gen:
                 return "%s(%s)" % (r.choice(fs), self.num(sc, 1))
         if k == 21:
             return self.do_block(sc, d, "any")
+        if k == 23 and self.allow_fail:
+            self.note("output-unportable")
+            nm = self.fresh(sc)
+            sc.vars[nm] = "fn1"
+            return r.choice(["output %s = x => x + nosuch9" % nm, "%s = x => [y => y + nosuch8]\noutput %s" % (nm, nm),
+                             "output %s = [1, x => x]" % nm])
         if k == 22:
             self.note("comment")
             return "// " + r.choice(["note", "x = 1", ""])
